@@ -115,6 +115,12 @@ func sexpToJson(exp Sexp, inProgress map[interface{}]bool) string {
 		return e.jsonArrayHelper(inProgress)
 	case *SexpSymbol:
 		return `"` + e.name + `"`
+	case *SexpSentinel:
+		if e == SexpNull {
+			// (printed as nil, which no JSON reader accepts)
+			return "null"
+		}
+		return exp.SexpString(nil)
 	default:
 		return exp.SexpString(nil)
 	}
